@@ -4,7 +4,7 @@ CONSTANTS
   T = 3
   Stateless = FALSE
   MaxSlots = 2
-  MaxParked = 1
+  MaxParked = 2
 INVARIANTS MintOnlyOnCreate DeadStaysDead UserBound NoTimeoutDuringPost StatelessNoIds ClosedAndForgotten TimerDiscipline
 PROPERTIES MintStep AtMostOneSession DeadForever ResAlways
 VIEW MCView
